@@ -7,6 +7,7 @@ VARIABLE last
 
 ProgAll == [a \in Actors |-> IF a = "a3" THEN <<"try", "lock">> ELSE <<"lock">>]
 Prog2   == [a \in Actors |-> <<"lock", "lock">>]
+Prog1 == [a \in Actors |-> <<"lock">>]
 ProgMix == [a \in Actors |-> IF a = "a1" THEN <<"lock", "lock">> ELSE IF a = "a2" THEN <<"lock">> ELSE <<"try", "lock">>]
 ProgTry == [a \in Actors |-> IF a = "a1" THEN <<"lock", "try">> ELSE IF a = "a2" THEN <<"lock">> ELSE <<"try", "lock">>]
 
